@@ -678,6 +678,28 @@ def register2(M):
             acc = interp.call(args[0], [acc, x], {}, node)
         return acc
     E['functools.reduce'] = _reduce
+
+    class CachedFn:
+        """functools.lru_cache / cache: results are kept per argument tuple and handed back as the same object"""
+        def __init__(self, fn):
+            self.fn, self.store = fn, {}
+
+        def __call__(self, interp, args, kw, node):
+            try:
+                key = (tuple(args), tuple(sorted(kw.items())))
+                hash(key)
+            except TypeError:
+                raise AbsRaise(ExcVal('TypeError', ('unhashable type',)), node)
+            if key not in self.store:
+                self.store[key] = interp.call(self.fn, list(args), dict(kw), node)
+            return self.store[key]
+
+    def _lru_cache(interp, args, kw, node):
+        if args and not isinstance(args[0], (int, type(None))) and not kw:
+            c = CachedFn(args[0])                  # @lru_cache without parentheses / @cache
+            return PyCallable(c, 'cached')
+        return PyCallable(lambda it, a, k, n: PyCallable(CachedFn(a[0]), 'cached'), 'lru_cache(...)')
+    E['functools.lru_cache'] = E['functools.cache'] = _lru_cache
     for _nm, _op in (('lt', 'Lt'), ('le', 'LtE'), ('gt', 'Gt'), ('ge', 'GtE'), ('eq', 'Eq'), ('ne', 'NotEq'), ('is_', 'Is'), ('is_not', 'IsNot')):
         E['operator.' + _nm] = (lambda it, a, k, n, _op=_op: M.compare(it, _op, a[0], a[1], n))
     E['operator.contains'] = lambda it, a, k, n: M.compare(it, 'In', a[1], a[0], n)
